@@ -54,11 +54,29 @@ macro_rules! fmt_stmt {
 pub fn remove_condition_parentheses(expression: Expression) -> Expression {
     match expression.to_owned() {
         Expression::Parentheses {
+            contained,
             expression: inner_expression,
-            ..
         } => {
-            let (_, comments) = trivia_util::take_trailing_comments(&expression);
-            inner_expression.update_trailing_trivia(FormatTriviaType::Append(comments))
+            // Keep the comments which are bound to the parentheses we are removing
+            let (start_parens, end_parens) = contained.tokens();
+            let leading_comments = start_parens
+                .leading_trivia()
+                .chain(start_parens.trailing_trivia())
+                .filter(|token| trivia_util::trivia_is_comment(token))
+                .map(|x| x.to_owned())
+                .collect();
+            let mut trailing_comments: Vec<_> = end_parens
+                .leading_trivia()
+                .filter(|token| trivia_util::trivia_is_comment(token))
+                .map(|x| x.to_owned())
+                .collect();
+
+            let (_, mut comments) = trivia_util::take_trailing_comments(&expression);
+            trailing_comments.append(&mut comments);
+
+            inner_expression
+                .update_leading_trivia(FormatTriviaType::Append(leading_comments))
+                .update_trailing_trivia(FormatTriviaType::Append(trailing_comments))
         }
         _ => expression,
     }
